@@ -16,7 +16,7 @@ def check(ctx, rep):
     W.rule_M1(m, rep)
     W.rule_M2(m, rep, 'must')
     W.rule_M3(m, rep)
-    W.rule_M4_M5_M6(m, rep)
+    W.rule_M4_M5_M6(m, rep, want=('M4', 'M5'))
     W.rule_M7(m, rep)
     W.rule_M8(m, rep)
     W.rule_M9(m, rep)
